@@ -203,6 +203,18 @@ func (g *c11Gen) action() {
 			g.vars[y] = nl
 			g.w("%s = %s;", y, call)
 		}
+	case 11: // keep an array in an object property and read it back through the property
+		g.w("holder.p = %s;", x)
+		g.w("%s = holder.p;", y)
+		g.vars[y] = lx
+		g.w("%s holder.p;", bn.KwPrint)
+		if len(lx.elems) > 0 && g.pick("viaHolder", 2) == 0 {
+			i := g.pick("index", len(lx.elems))
+			v := g.u()
+			lx.elems[i] = gElem{n: v}
+			g.mutated(lx)
+			g.w("holder.p[%d] = %d;", i, v)
+		}
 	default: // রিমুভ
 		if len(lx.elems) == 0 {
 			g.w("%s %s;", bn.KwPrint, x)
@@ -232,6 +244,7 @@ func (g *c11Gen) program(nActions int, fault int) string {
 	g.vars = map[string]*gList{}
 	g.names = []string{"A", "B", "C"}
 	g.w("%s wr(p, i, v) { p[i] = v; }", bn.KwFun)
+	g.w("%s holder = {p: nil};", bn.KwVar)
 	la, ta := g.newList(1+g.pick("len", 4), false)
 	lb, tb := g.newList(g.pick("len", 4), false)
 	g.vars["A"], g.vars["B"], g.vars["C"] = la, lb, la
